@@ -759,7 +759,14 @@ def pbkdf2_hmac(digest: bytes, secret: bytes, salt: bytes, rounds: int, keylen=N
     # resolve digest
     digest_info = lookup_hash(digest)
 
-    return hashlib.pbkdf2_hmac(digest_info.name, secret, salt, rounds, keylen)
+    try:
+        return hashlib.pbkdf2_hmac(digest_info.name, secret, salt, rounds, keylen)
+    except OverflowError as err:
+        # hashlib takes the cost as a C int: a larger value (e.g. from a stored hash) is an invalid cost, not an internal error
+        # (an oversized keylen keeps raising OverflowError)
+        if isinstance(rounds, int) and rounds > 0x7FFFFFFF:
+            raise ValueError(f"rounds too large: {err}") from err
+        raise
 
 
 PBKDF2_BACKENDS = [
